@@ -13,7 +13,9 @@ Record case := mkCase {
   c_tb : nat;                          (* 0 lexico, 1 app_score, 2 min_cost, 3 max_cost, 4 custom key *)
   c_key : list Q;                      (* key by rank for c_tb = 4 *)
   c_resolute : bool;
-  c_out : list (list nat)              (* returned allocation(s); resolute: a singleton *)
+  c_out : list (list nat);             (* returned allocation(s); resolute: a singleton; [] when it raised *)
+  c_refuse : bool;                     (* tie_breaking = refuse_tie_breaking (then c_tb = 0 and is unused) *)
+  c_raised : bool                      (* the call raised TieBreakingException *)
 }.
 
 Definition I_of (c : case) : inst := mkInst (c_costs c) (c_budget c).
@@ -60,12 +62,72 @@ Definition alloc_ok (c : case) (W : list nat) : bool :=
   nodupb W && forallb (fun p => Nat.ltb p (nproj I)) W && Qleb (tcost I W) (budget I)
   && forallb (fun p => memb p W) (c_init c).
 
+(* ---------- refuse_tie_breaking ----------
+   The rule raises when it is asked to break a tie.  Statement: the call raises iff at some round
+   of the process TWO OR MORE projects are due at the same moment and one of them is about to be
+   bought (no due project overshoots -- a round that stops consults no tie-breaking), in the
+   supported phase or in the unsupported tail (all remaining unsupported projects are due together),
+   resolute or irresolute alike (up to its first tie the process is deterministic, and the first tie
+   raises); otherwise the outcome is the one of the process, in which tie-breaking never mattered. *)
+Fixpoint money_tie (fuel : nat) (I : inst) (P : list aballot) (st : mstate)
+         (rem alloc : list proj) : option bool :=
+  match money_round I P st rem alloc with
+  | MDone | MStop => Some false
+  | MBuy due t =>
+      match due with
+      | [] => None
+      | [p] => match fuel with
+               | O => None
+               | S f => money_tie f I P (after P st p t) (drop p rem) (alloc ++ [p])
+               end
+      | _ :: _ :: _ => Some true
+      end
+  end.
+
+(* the same question asked of the mirror of the code: a pass that buys with >= 2 tied projects *)
+Fixpoint model_tie_run (fuel : nat) (I : inst) (P : list aballot)
+         (projs : list proj) (loads : list Q) (alloc : list proj) (c : Q) : option bool :=
+  match projs with
+  | [] => Some false
+  | _ :: _ =>
+      match phr_round I P tb_lexico loads projs c with
+      | RStop => Some false
+      | RPick tied t =>
+          match tied with
+          | [] => None
+          | [p] => match fuel with
+                   | O => None
+                   | S f => model_tie_run f I P (remove_proj p projs) (apply_load P loads p t)
+                                          (alloc ++ [p]) (Qred (c + cost I p))
+                   end
+          | _ :: _ :: _ => Some true
+          end
+      end
+  end.
+
+Definition spec_tie (c : case) : option bool :=
+  let I := I_of c in
+  let P := P_of c in
+  let small := Nat.leb (copies P) 64 in
+  let P1 := if small then expandA P else P in
+  let L1 := if small then expandL P (c_loads c) else c_loads c in
+  let rem := money_projects I (all_projects I) (c_init c) in
+  money_tie (S (length rem)) I P1 (money_start L1) rem (c_init c).
+
+Definition model_tie (c : case) : option bool :=
+  let I := I_of c in
+  let projs := phr_projects I (all_projects I) (c_init c) in
+  model_tie_run (S (length projs)) I (P_of c) projs (c_loads c) (c_init c) (tcost I (c_init c)).
+
 (* failure codes:
    1 returned set(s) differ from the money process   2 returned set(s) differ from the model
    3 a returned allocation is not a feasible duplicate-free superset of the initial allocation
    4 model and money process disagree with each other (excluded by phragmen_refines_money +
-     phragmen_mult: would mean the case violates their hypotheses) *)
-Definition check (c : case) : list nat :=
+     phragmen_mult: would mean the case violates their hypotheses)
+   5 refuse_tie_breaking: raised although no tie had to be broken, or returned although one had
+   6 refuse_tie_breaking: raise/return differs from the mirror of the code
+   7 TieBreakingException under a rule other than refuse_tie_breaking *)
+Definition check_sets (c : case) : list nat :=
   flag (sets_agree (money_out c) (c_out c)) 1
   ++ flag (sets_agree (model_out c) (c_out c)) 2
   ++ flag (forallb (alloc_ok c) (c_out c) && negb (Nat.eqb (length (c_out c)) 0)) 3
@@ -73,5 +135,16 @@ Definition check (c : case) : list nat :=
            | Some a, Some b => setset_eqb a b
            | _, _ => false
            end) 4.
+
+Definition check (c : case) : list nat :=
+  if c_refuse c then
+    match spec_tie c, model_tie c with
+    | Some st, Some mt =>
+        flag (Bool.eqb st (c_raised c)) 5 ++ flag (Bool.eqb mt (c_raised c)) 6
+        ++ flag (Bool.eqb st mt) 4
+        ++ (if c_raised c || st || mt then [] else check_sets c)
+    | _, _ => [4%nat]
+    end
+  else if c_raised c then [7%nat] else check_sets c.
 
 Definition run (cs : list case) : list (nat * nat) := run_cases check 0 cs.
